@@ -29,7 +29,7 @@ def fuzz(bin, quick_runs=200000, thorough_runs=3000000, quick_jobs=2, thorough_j
 
 
 PROPS = {}
-HOOK_COMMITS = []
+HOOK_COMMITS = ['61f94cf', 'deb99e5', '49b92ec', '78800be']  # /repo commits that add the ASL_VERIF instrumentation
 NOT_CLAIMED = {}
 
 
